@@ -321,7 +321,8 @@ PIPES = {
     "C03": {
         "py": [],
         "cpp": ["ref.bin>cpp.b2b>py.read.bin", "ref.bin>py.b2b>cpp.b2b>ref.dec", "ref.bin>cpp.b2j>py.read.json", "ref.bin>py.b2j>cpp.j2b>ref.dec",
-                "ref.json>cpp.j2b>py.b2j>ref.dec", "ref.json>py.j2b>cpp.b2j>ref.dec", "ref.bin>cpp.b2b>py.b2b>ref.exact", "ref.bin>py.b2j>cpp.j2j>py.read.json", "ref.bin>py.rwb>cpp.b2b>ref.dec"],
+                "ref.json>cpp.j2b>py.b2j>ref.dec", "ref.json>py.j2b>cpp.b2j>ref.dec", "ref.bin>cpp.b2b>py.b2b>ref.exact", "ref.bin>py.b2j>cpp.j2j>py.read.json", "ref.bin>py.rwb>cpp.b2b>ref.dec",
+                "ref.bin>py.rwj>cpp.j2b>ref.dec"],     # (values re-written by Python as NDJSON from other in-memory representations, read by C++)
     },
 }
 
